@@ -6,8 +6,7 @@ use quote::ToTokens;
 use std::fmt::Debug;
 use syn::{
     parse::{Parse, ParseStream},
-    Expr::Let,
-    Pat, Token,
+    BinOp, Expr, ExprLet, Pat, Token,
 };
 
 use super::ActionExprChain;
@@ -22,6 +21,25 @@ use crate::{
         utils::{is_block_expr, parse_until},
     },
 };
+
+///
+/// Extracts leading `let` of given `Expr`, leaving the bound value in place of it.
+/// `syn` parses `let a = b || c` as `(let a = b) || c`, so `let` is looked for at
+/// the leftmost leaf of lazy boolean operators.
+///
+fn extract_leading_let(expr: &mut Expr) -> Option<ExprLet> {
+    match expr {
+        Expr::Let(let_expr) => {
+            let let_expr = let_expr.clone();
+            *expr = *let_expr.expr.clone();
+            Some(let_expr)
+        }
+        Expr::Binary(binary) if matches!(binary.op, BinOp::And(_) | BinOp::Or(_)) => {
+            extract_leading_let(&mut binary.left)
+        }
+        _ => None,
+    }
+}
 
 pub struct ActionExprChainBuilder<'a> {
     group_determiners: &'a [GroupDeterminer],
@@ -76,11 +94,12 @@ impl<'a> ParseChain<ActionExprChain> for ActionExprChainBuilder<'a> {
                 // If we have branch starting with `let` pattern,
                 // check if it's correct and then, if it's, associate
                 // it with given branch
-                if let Let(let_expr) = exprs
+                let mut initial_expr = exprs
                     .first()
                     .cloned()
-                    .expect("join: Failed to extract first expr of initial expr. This's a bug, please report it.")
-                {
+                    .expect("join: Failed to extract first expr of initial expr. This's a bug, please report it.");
+
+                if let Some(let_expr) = extract_leading_let(&mut initial_expr) {
                     if let Pat::Ident(pat) = &let_expr.pat {
                         chain.set_id(Some(pat.clone()));
                     } else {
@@ -88,7 +107,7 @@ impl<'a> ParseChain<ActionExprChain> for ActionExprChainBuilder<'a> {
                     }
 
                     action_expr = action_expr
-                        .replace_inner_exprs(&[*let_expr.expr.clone()])
+                        .replace_inner_exprs(&[initial_expr])
                         .expect("join: Failed to replace initial expr. This's a bug, please report it.");
                 }
 
